@@ -103,6 +103,9 @@ def iter_cases(prop, tier, seed, shard, nshards):
             gi += 1
             if gi % nshards != shard:
                 continue
+            # the repository's suite needs pytest: primary interpreter only
+            if os.environ.get('VERIF_PRIMARY_PYTHON', sys.executable) != sys.executable:
+                continue
             from .suite import run_suite_case
 
             def thunk():
@@ -248,7 +251,7 @@ def run_check(prop, tier, seed):
     scratch = os.path.join(OUT, '.scratch', '%s-%s-%d' % (prop, tier, os.getpid()))
     os.makedirs(scratch, exist_ok=True)
     nshards = NSHARDS
-    env = dict(os.environ, PYTHONHASHSEED='0', VERIF_REPO=REPO)
+    env = dict(os.environ, PYTHONHASHSEED='0', VERIF_REPO=REPO, VERIF_PRIMARY_PYTHON=sys.executable)
     procs = []
     plan = [(sys.executable, shard) for shard in range(nshards)]
     # second platform: the same library on another interpreter (different
